@@ -34,6 +34,8 @@ impl FqVarExtension for FqVar {
         // Note: `num = 1`
         // `y = sqrt(num/den)`
         let (was_square, y) = Fq::sqrt_ratio_zeta(&Fq::ONE, &den);
+        #[cfg(decaf377_verif)]
+        let (was_square, y) = verif_hints::next_isqrt_hint().unwrap_or((was_square, y));
 
         let cs = self.cs();
         let was_square_var = Boolean::new_witness(cs.clone(), || Ok(was_square))?;
@@ -96,5 +98,38 @@ impl FqVarExtension for FqVar {
         let absolute_value =
             FqVar::conditionally_select(&self.is_nonnegative()?, &self, &self.negate()?)?;
         Ok(absolute_value)
+    }
+}
+
+/// Verification hooks: substitute the prover-supplied hints of `isqrt` and of
+/// witness allocation (a malicious prover is free to choose them).
+#[cfg(decaf377_verif)]
+pub mod verif_hints {
+    extern crate std;
+    use crate::Fq;
+    use std::cell::RefCell;
+    use std::collections::VecDeque;
+
+    std::thread_local! {
+        static ISQRT: RefCell<VecDeque<Option<(bool, Fq)>>> = RefCell::new(VecDeque::new());
+        static ENC: RefCell<VecDeque<Option<Fq>>> = RefCell::new(VecDeque::new());
+    }
+
+    /// Queue hint overrides for the next calls of `isqrt` (None = honest).
+    pub fn set_isqrt_hints(h: &[Option<(bool, Fq)>]) {
+        ISQRT.with(|q| *q.borrow_mut() = h.iter().cloned().collect());
+    }
+
+    pub(crate) fn next_isqrt_hint() -> Option<(bool, Fq)> {
+        ISQRT.with(|q| q.borrow_mut().pop_front().flatten())
+    }
+
+    /// Queue overrides for the encoding witnessed by `ElementVar::new_witness`.
+    pub fn set_enc_hints(h: &[Option<Fq>]) {
+        ENC.with(|q| *q.borrow_mut() = h.iter().cloned().collect());
+    }
+
+    pub(crate) fn next_enc_hint() -> Option<Fq> {
+        ENC.with(|q| q.borrow_mut().pop_front().flatten())
     }
 }
